@@ -71,9 +71,9 @@ struct Value {
         for (auto& kv : o)
             if (kv.first == k)
                 return kv.second;
-        static Value nul;
-        return nul;
+        return nul_value();
     }
+    static const Value& nul_value(); // namespace-scope constant (initialised before main: no lazy init inside threads)
     Value& push(const Value& v)
     {
         if (type == NUL)
@@ -212,6 +212,9 @@ struct Value {
         return s2;
     }
 };
+
+inline const Value g_nul_value{};
+inline const Value& Value::nul_value() { return g_nul_value; }
 
 struct Parser {
     const char* p;
